@@ -109,3 +109,6 @@ func VerifGlobal() (live bool, loggers, appenders int) {
 
 // VerifRollingInner returns the logger a RollingFileLogger delegates to (nil before Start).
 func VerifRollingInner(f *RollingFileLogger) Logger { return f.logger }
+
+// VerifToCamelKey exposes the key normalisation applied to configuration keys.
+func VerifToCamelKey(key string) string { return toCamelKey(key) }
